@@ -69,16 +69,18 @@ func loadEvents(filename string) (map[string]*eventsListType, error) {
 			if savedEvent.CreateTime < minCreateTime {
 				continue
 			}
+			// Events are saved newest first: each successive saved event is
+			// older than all the ones already linked.
 			event := &eventType{
 				EventType: savedEvent,
-				older:     eventsList.newest,
+				newer:     eventsList.oldest,
 			}
-			if eventsList.newest != nil {
-				eventsList.newest.newer = event
+			if eventsList.oldest != nil {
+				eventsList.oldest.older = event
 			}
-			eventsList.newest = event
-			if eventsList.oldest == nil {
-				eventsList.oldest = event
+			eventsList.oldest = event
+			if eventsList.newest == nil {
+				eventsList.newest = event
 			}
 		}
 		eventsMap[username] = eventsList
